@@ -604,7 +604,7 @@ class iindex(dict):
         # Iterate through the gathered rowids in reverse precedence order,
         # overwriting the output as we go.
         # This takes some RAM but only O(rows), not subvars etc.
-        dtype = fit_dtype(max(precedence))
+        dtype = fit_dtype(max(precedence), min(precedence))
         default = precedence[-1]
         output = numpy.full(numrows, default, dtype=dtype)
         common_has_been_written = True
